@@ -156,6 +156,15 @@ const NOISE: &[&[u8]] = &[
 pub fn gen_mapping(rng: &mut Rng, cfg: &GenCfg) -> Vec<u8> {
     let mut out: Vec<u8> = Vec::new();
     let push = |out: &mut Vec<u8>, s: &str| out.extend_from_slice(s.as_bytes());
+    if cfg.huge_names && rng.chance(1, 40) {
+        out.extend_from_slice(b"\xEF\xBB\xBF"); // a UTF-8 byte order mark
+    }
+    if cfg.huge_names && rng.chance(1, 60) {
+        // a very long comment line (> 64 KiB)
+        out.push(b'#');
+        out.extend(std::iter::repeat(b'x').take(70_000));
+        out.push(b'\n');
+    }
 
     if cfg.headers {
         for h in [
@@ -351,6 +360,9 @@ pub fn gen_mapping(rng: &mut Rng, cfg: &GenCfg) -> Vec<u8> {
         while matches!(out.last(), Some(b'\n') | Some(b'\r')) {
             out.pop();
         }
+    }
+    if rng.chance(1, 50) {
+        out.extend_from_slice(&[0u8; 3]); // trailing NUL bytes (a padded file)
     }
     out
 }
